@@ -463,6 +463,7 @@ package kcp
 //@   callsite KCP.parse_ack requires @C11 [only-segments-of-this-conversation-are-processed] le32(data, 0 - 24) == kcp.conv
 //@   callsite KCP.parse_fastack requires @C11 [only-segments-of-this-conversation-are-processed] le32(data, 0 - 24) == kcp.conv
 //@   callsite KCP.ack_push requires @C11 [only-segments-of-this-conversation-are-processed] le32(data, 0 - 24) == kcp.conv
+//@   callsite KCP.ack_push requires @C01 [acknowledged-only-if-already-delivered-or-inside-the-window-where-it-is-kept] itimediff(arg_sn, addu32(kcp.rcv_nxt, kcp.rcv_wnd)) < 0
 //@   ensures @C01 [receive-queue-in-sequence-order] old(kcp.rcvQ()) ==> kcp.rcvQ()
 //@   loop 1 invariant old(kcp.rcvQ()) ==> kcp.rcvQ()
 //@   requires kcp.wf()
